@@ -107,7 +107,7 @@ Definition elementwise_step (st : step) : bool :=
   match st with
   | SMap _ | SFilter _ | SFlatMap _ | SKeyBy _ | SUnkey | SMapValues _ | SFilterValues _
   | SMapValuesW _ | SFilterValuesW _ | SMapValuesBack _ | SGroupValuesToList => true
-  | SMapBatches _ (BEach _) | SMapValuesBatches _ (BEach _) => true
+  | SMapBatches _ (BEach _) | SMapValuesBatches _ (BEach _) | SMapBatches _ BDup => true
   | _ => false
   end.
 Definition has_barrier (steps : list step) : bool := negb (forallb elementwise_step steps).
